@@ -18,6 +18,15 @@ def agreePrim (p : Prim) (S : SType) : Bool :=
   | .anycast, .anycast => true
   | .msgAddress, .msgAddress => true
   | .payloadV1toV4, .payloadList => true
+  | .w5Actions, .outList => true
+  | .accountStatus, .enum cs =>
+    cs == [(Prim.s_uninit, [false, false]), (Prim.s_frozen, [false, true]), (Prim.s_active, [true, false]),
+      (Prim.s_nonexist, [true, true])]
+  | .accStatusChange, .enum cs =>
+    cs == [(Prim.s_acst_unchanged, [false]), (Prim.s_acst_frozen, [true, false]), (Prim.s_acst_deleted, [true, true])]
+  | .computeSkipReason, .enum cs =>
+    cs == [(Prim.s_cskip_no_state, [false, false]), (Prim.s_cskip_bad_state, [false, true]),
+      (Prim.s_cskip_no_gas, [true, false]), (Prim.s_cskip_suspended, [true, true, false])]
   | _, _ => false
 
 def tagAgrees (tg : Tag) (bits : List Bool) : Bool := tg.ok && natToBits tg.len tg.val == bits
